@@ -126,6 +126,8 @@ def feed_sequence(an, fn, pparam):
 
 def check(ctx):
     an, model = ctx.an, ctx.model
+    from .c02 import check_container_items_encoded
+    check_container_items_encoded(ctx)      # secrets / digests held as items of typed lists and dicts
     calls = an.summary(CALLS)
     CF = model.cls("ChallengeField")
     DV = model.cls("DigestValue")
